@@ -178,6 +178,7 @@ func runC13(c *eng.Ctx, thorough bool) {
 	c.Floor(nil, "delegating layer operations", nDeleg, 70)
 
 	c13Cache(c)
+	cacheLockOwner(c, "C13.5")
 	c13Seek(c)
 	c13SlicePagination(c)
 	c13Views(c)
@@ -1148,4 +1149,44 @@ func c13SiblingDelegates(c *eng.Ctx, typs []string, delegates map[string]map[str
 		}
 	}
 	c.Floor(nil, "layer types with at least two delegating operations", n, 15)
+}
+
+// cacheLockOwner: wherever a cache's LRU is modified under a per-key lock, the
+// lock table and the LRU belong to the same cache object (a transaction's
+// private cache has locks of its own; taking those while invalidating the
+// parent's LRU serialises nothing against the parent's readers) — seed C08-b.
+// Evaluated for C13.5 and C08.5.
+func cacheLockOwner(c *eng.Ctx, clause string) {
+	c.Clause("R9", clause)
+	n := 0
+	for _, f := range c.P.Funcs {
+		if !eng.InPkg(f, "physical") {
+			continue
+		}
+		muts := eng.Calls(f, `TwoQueueCache\[.*\]\)\.(Add|Remove)$`)
+		locks := eng.Calls(f, `^locksutil\.LockForKey`)
+		if len(muts) == 0 || len(locks) == 0 {
+			continue
+		}
+		for _, mu := range muts {
+			owner := strings.TrimSuffix(eng.ExprDeep(mu.Common().Args[0]), ".lru")
+			ok := false
+			var tables []string
+			for _, lk := range locks {
+				t := strings.TrimSuffix(eng.ExprDeep(lk.Common().Args[0]), ".locks")
+				tables = append(tables, t)
+				if t == owner {
+					ok = true
+				}
+			}
+			n++
+			site := "lock table and LRU of the same cache"
+			if ok {
+				c.OK(f, site, mu.Pos(), owner)
+			} else {
+				c.Violation(f, site, mu.Pos(), "the LRU of "+owner+" is modified while holding a per-key lock of "+strings.Join(tables, ", ")+": readers of that cache are not excluded and can refill it with a stale value", nil)
+			}
+		}
+	}
+	c.Floor(nil, "locked LRU modifications", n, 5)
 }
